@@ -17,8 +17,8 @@ ASSUMPTIONS = ['float32 logits compared within 2e-4 relative to the largest |log
                'steps at which the arg-max margin is below 1e-3 make later steps of that line incomparable (decoding may legitimately branch): skipped from there on',
                'termination is decided on decoding steps: at most W//4 + 2']
 N = {'quick': 40, 'thorough': 3000}
-CLASSES = ['default', 'deep', 'wide', 'eos_early', 'never_ends', 'single_head', 'run_ocr', 'default']
-REQUIRED = ['batches', 'cached_vs_uncached', 'cached_vs_teacher_forced', 'fresh_vs_history', 'single_vs_batch_lines', 'cache_calls_checked', 'cross_attention_cache_checked',
+CLASSES = ['default', 'deep', 'wide', 'eos_early', 'never_ends', 'single_head', 'run_ocr', 'default', 'batch_256', 'long_line']
+REQUIRED = ['batches_of_256_or_more_lines', 'lines_decoded_for_more_than_500_steps', 'models_with_zero_width_space_in_the_alphabet', 'batches', 'cached_vs_uncached', 'cached_vs_teacher_forced', 'fresh_vs_history', 'single_vs_batch_lines', 'cache_calls_checked', 'cross_attention_cache_checked',
             'batches_after_different_batch', 'lines_hit_length_cap', 'lines_ended', 'run_ocr_batches', 'run_ocr_history_batches']
 SHARDS = {'quick': 8, 'thorough': 16}
 TIMEOUT = {'quick': 1200, 'thorough': 10800}
@@ -92,7 +92,16 @@ def gen(rng, i, ctx):
         ws = sorted([int(rng.choice([64, 96, 128, 192, 256, 300])) for _ in batches], reverse=True)
         for b_, w_ in zip(batches, ws):
             b_['n'], b_['w'] = n0, w_ // 4 * 4
-    return {'cls': cls, 'model_seed': int(rng.integers(0, 1 << 30)), 'dim': dim, 'heads': heads, 'dec': dec, 'eos_bias': eos, 'batches': batches}
+    case = {'cls': cls, 'model_seed': int(rng.integers(0, 1 << 30)), 'dim': dim, 'heads': heads, 'dec': dec, 'eos_bias': eos, 'batches': batches}
+    if cls == 'batch_256':
+        # exactly 256 (512) lines decoded together, none of which ends before the length cap; then the same with a few more lines
+        case.update(dim=16, dec=1, eos_bias=-6.0, batches=[{'n': int(rng.choice([256, 512])), 'w': 32, 'seed': int(rng.integers(0, 1 << 30))}, {'n': 258, 'w': 32, 'seed': int(rng.integers(0, 1 << 30))}])
+    if cls == 'long_line':
+        # one line wider than 2000 px that never emits the boundary symbol: more than 500 decoding steps, all key/value caches filled beyond row 500
+        case.update(dim=16, dec=1, heads=int(rng.choice([1, 2])), eos_bias=-8.0, batches=[{'n': 1, 'w': int(rng.choice([2048, 2112])), 'seed': int(rng.integers(0, 1 << 30))}, {'n': 2, 'w': 64, 'seed': int(rng.integers(0, 1 << 30))}])
+    # every third model has an alphabet that itself contains U+200B as an ordinary character (the boundary symbol is the class AFTER the alphabet, whatever the alphabet holds)
+    case['chars'] = 'ab\u200bcdef' if case['model_seed'] % 3 == 0 else 'abcdef'
+    return case
 
 
 def describe(case):
@@ -117,9 +126,12 @@ def first_ambiguous_step(l):
 
 def check(case, mon, ctx):
     torch = ctx.torch
-    eng = ctx.stubs.make_transformer_engine(ctx.tmpdir + '/teng', case['model_seed'], H=32, dim=case['dim'], heads=case['heads'], dff=2 * case['dim'], enc=1, dec=case['dec'], eos_bias=case['eos_bias'])
+    eng = ctx.stubs.make_transformer_engine(ctx.tmpdir + '/teng', case['model_seed'], H=32, dim=case['dim'], heads=case['heads'], dff=2 * case['dim'], enc=1, dec=case['dec'], eos_bias=case['eos_bias'], chars=case.get('chars', 'abcdef'))
     fresh = copy.deepcopy(eng.net)
     nsym = len(eng.characters)
+    BND, IGN = len(case.get('chars', 'abcdef')), len(case.get('chars', 'abcdef')) + 1       # boundary / ignore classes: the two classes after the configured alphabet
+    if '\u200b' in case.get('chars', ''):
+        mon.count('models_with_zero_width_space_in_the_alphabet')
     prev_shape = None
     for bi, b in enumerate(case['batches']):
         rng = np.random.default_rng(b['seed'])
@@ -142,8 +154,9 @@ def check(case, mon, ctx):
             e2 = copy.copy(eng)
             e2.net = copy.deepcopy(fresh)
             o3, l3 = e2.transcribe_batch(x.copy(), is_cached=True)
-            singles = [e2.transcribe_batch(x[k:k + 1].copy(), is_cached=True) for k in range(b['n'])]
-            labels = torch.cat([torch.full((b['n'], 1), eng.sentence_boundary_ind), l.argmax(-1)[:, :-1]], 1)
+            single_ids = list(range(b['n'])) if b['n'] <= 16 else list(range(6)) + list(range(b['n'] - 4, b['n']))
+            singles = [e2.transcribe_batch(x[k:k + 1].copy(), is_cached=True) for k in single_ids]
+            labels = torch.cat([torch.full((b['n'], 1), BND), l.argmax(-1)[:, :-1]], 1)
             full = eng.net(torch.from_numpy(x).float() / 255.0, labels).permute(1, 0, 2)
         mon.count('batches')
         mon.observe('transcriptions', [t_.tolist() for t_ in o])
@@ -174,7 +187,11 @@ def check(case, mon, ctx):
             mon.violation('cached-equals-teacher-forced-forward', dict(w, max_abs_diff=d_tf, steps_compared=lim))
         if d_fresh > TOL:
             mon.violation('independent-of-earlier-batches', dict(w, max_abs_diff=d_fresh, steps_compared=lim, previous_batches=[(q['n'], q['w']) for q in case['batches'][:bi]]))
-        for k, (os_, ls_) in enumerate(singles):
+        if b['n'] >= 256:
+            mon.count('batches_of_256_or_more_lines')
+        if steps > 500:
+            mon.count('lines_decoded_for_more_than_500_steps')
+        for k, (os_, ls_) in zip(single_ids, singles):
             n = min(ls_.shape[1], l.shape[1], amb[k])
             d = float((ls_[0, :n] - l[k, :n]).abs().max()) if n else 0.0
             mon.count('single_vs_batch_lines')
@@ -185,17 +202,17 @@ def check(case, mon, ctx):
                 mon.violation('independent-of-batch-mates', dict(w, line=k, alone=os_[0].tolist(), in_batch=o[k].tolist()))
         for k in range(b['n']):
             t = o[k].tolist()
-            if eng.sentence_boundary_ind in t or eng.ignore_ind in t or any(s < 0 or s >= nsym for s in t):
+            if BND in t or IGN in t or any(s < 0 or s >= nsym for s in t):
                 mon.violation('transcription-free-of-boundary-and-ignore-symbols', dict(w, line=k, transcription=t))
             # the transcription is the arg-max path up to the first boundary symbol
             path = l[k].argmax(-1).tolist()
             exp = []
             for s in path:
-                if s == eng.sentence_boundary_ind:
+                if s == BND:
                     break
-                if s != eng.ignore_ind:
+                if s != IGN:
                     exp.append(s)
-            ended = eng.sentence_boundary_ind in path
+            ended = BND in path
             mon.count('lines_ended' if ended else 'lines_hit_length_cap')
             if not ended:
                 exp = exp[:steps - 1] if len(exp) > steps - 1 else exp
@@ -208,7 +225,7 @@ def check(case, mon, ctx):
             lines_h = np.ascontiguousarray(np.transpose(x, (0, 2, 3, 1)))
             with torch.no_grad(), contextlib.redirect_stdout(io.StringIO()):
                 dec_h, lg_h = eng.run_ocr(lines_h.copy())
-                e3 = ctx.stubs.make_transformer_engine(ctx.tmpdir + '/teng_fresh', case['model_seed'], H=32, dim=case['dim'], heads=case['heads'], dff=2 * case['dim'], enc=1, dec=case['dec'], eos_bias=case['eos_bias'])
+                e3 = ctx.stubs.make_transformer_engine(ctx.tmpdir + '/teng_fresh', case['model_seed'], H=32, dim=case['dim'], heads=case['heads'], dff=2 * case['dim'], enc=1, dec=case['dec'], eos_bias=case['eos_bias'], chars=case.get('chars', 'abcdef'))
                 dec_f, lg_f = e3.run_ocr(lines_h.copy())
             mon.count('run_ocr_history_batches')
             nst = min(lg_h.shape[1], lg_f.shape[1], min(first_ambiguous_step(torch.from_numpy(lg_f))))
@@ -233,7 +250,7 @@ def check(case, mon, ctx):
                 if amb2[k] >= lg.shape[1] and d1[0] != dec[k]:
                     mon.violation('independent-of-batch-mates', dict(w, via='run_ocr', line=k, alone=d1[0], in_batch=dec[k]))
             for t in dec:
-                if '​' in t:
+                if '​' in t and '​' not in case.get('chars', ''):
                     mon.violation('transcription-free-of-boundary-and-ignore-symbols', dict(w, via='run_ocr', transcription=t))
             if lg.shape[1] > 1088 // 4 + 2:
                 mon.violation('decoding-terminates-within-the-length-cap', dict(w, via='run_ocr', steps=int(lg.shape[1])))
